@@ -382,6 +382,9 @@ func (g *gen) literal(nRandom int) []program {
 	for i, t := range sharedNatives {
 		ps = append(ps, program{Src: sharedContainers[i%len(sharedContainers)] + " | " + t, Kind: "literal", Inputs: in})
 	}
+	for _, t := range sharedPathLists {
+		ps = append(ps, program{Src: t, Kind: "literal", Inputs: in})
+	}
 	for i := 0; i < nRandom; i++ {
 		v := g.value(0, 3)
 		ps = append(ps, program{Src: jsonText(v) + " | " + g.op(v), Kind: "literal", Inputs: in})
@@ -458,6 +461,15 @@ var sharedNatives = []string{
 	`[.[] | tostring] | join("-")`, `map(tostring) | join(",")`, `[.[]?] | join("/")`, `(.[1:] | join(","))?`, `([.[]] | join(","))`, `. as $x | $x | join(",")`, `[limit(2; repeat(join(",")))]`, `(.a | join(","))?`, `(.[0] | join(","))?`, `[.[] | arrays | join(",")]`,
 }
 
+// explicit path lists that the program does not own (literals, parts of the input), unsorted,
+// with ancestors after descendants; `builtins`; constant slices (compile-time memoisation)
+var sharedPathLists = []string{
+	`{"a":{"b":[1,2,3]},"c":1,"d":2} | delpaths([["d"],["a","b",2],["c"],["a","b",0]])`, `{"a":{"b":[1,2,3]},"c":1,"d":2} | delpaths([["c"],["a","b"],["a"]])`, `[[1,2],[3,4],[5]] | delpaths([[2],[0,1],[1,0],[0,0]])`,
+	`{"a":{"b":[1,2,3]},"c":1} | [["c"],["a","b",1],["a","b",0]] as $ps | delpaths($ps), $ps`, `{"a":[1,2,3]} | reduce ([["a",2],["a",0]], [["a",1]]) as $ps (.; delpaths($ps))`, `[3,1,2] | [[2],[0]] as $ps | [delpaths($ps), $ps, (.[1:] | delpaths([[1],[0]]))]`,
+	`builtins | length`, `[builtins[] | select(startswith("a"))] | length`, `builtins | map(split("/")[0]) | unique | length`,
+	`[1,2,3,4,5] | .[2:4], .[:-1], (.[1:3] = [9]), (.[:2] |= reverse), del(.[3:])`, `[[1,2],[3,4]] | [limit(3; combinations)]`, `[1,2,3] | [.[1:], .[:1], .[1:2]] | map(.[0:1])`, `"abcdef" | .[2:4], .[:-1], .[3:]`,
+}
+
 var sharedContainers = []string{`[1,true,"a",null,2.5,[1],{"a":1}]`, `[1,2,3,true,false,null,"x",1.5,100000000000000000000]`, `{"a":1,"b":true,"c":"x","d":null,"e":[1,2.5],"f":{"g":2}}`, `[[1,true],[2,false,"s"]]`, `{"a":[1,true,"a",null,2.5]}`}
 
 func (g *gen) update(nRandom int) []program {
@@ -475,6 +487,11 @@ func (g *gen) update(nRandom int) []program {
 	}
 	for _, t := range sharedNatives {
 		ps = append(ps, program{Src: t, Kind: "update", Inputs: sharedIn})
+	}
+	todo := []any{map[string]any{"todo": []any{[]any{"v", "d"}, []any{"v", "a", 1}, []any{"v", "c"}, []any{"v", "a", 0}}, "v": map[string]any{"a": []any{1, 2, 3}, "c": 1, "d": 2}},
+		map[string]any{"todo": []any{[]any{"v", 2}, []any{"v", 0}}, "v": []any{1, 2, 3}}}
+	for _, t := range []string{`. as $in | .v |= . | delpaths($in.todo)`, `delpaths(.todo)`, `.todo as $t | delpaths($t), $t`, `[delpaths(.todo), .todo]`, `del(.v) | .todo | sort`, `.todo |= sort | delpaths(.todo)`} {
+		ps = append(ps, program{Src: t, Kind: "update", Inputs: todo})
 	}
 	for i := 0; i < nRandom; i++ {
 		// inputs: the value the paths are drawn from, a few more of the same shape,
